@@ -212,7 +212,7 @@ class EzspRig:
         raised = 0
         try:
             self.ezsp.frame_received(data)
-        except Exception as e:  # noqa
+        except BaseException as e:  # noqa
             raised = 1
             self.out.append({"o": "raised", "exc": type(e).__name__})
         await self.settle()
